@@ -30,7 +30,8 @@ def run(tier, seed):
             sc.names = "mixed"
     traces, kept, fails = E.validate(ctx, scs, wanted_trace, "fault-free SAGE scenarios (scalar and growing multi-label outputs)")
     ctx.count_clause("trace.sage.*", sum(1 for t in traces for c in t["calls"] if c["pre"]["seen"] >= 1 and c["outcome"] == "ret"))
-    ctx.sample({"direction": "B", "scenario": kept[0].key(),
+    if traces:
+      ctx.sample({"direction": "B", "scenario": kept[0].key(),
                 "call_2": {k: traces[0]["calls"][1][k] for k in ("imputes", "losses", "perms")} if len(traces[0]["calls"]) > 1 else None})
     nf = 0
     for sc in scs[: (25 if quick else 250)]:
